@@ -65,6 +65,20 @@ def _okey(v):
     return str(v) if size_of(v) < 400 else str(hcons(v))
 
 
+_SWAP = {"cmp_Gt": "cmp_Lt", "cmp_GtE": "cmp_LtE"}
+
+
+def mk_cmp(opname, a, b):
+    """Comparison in canonical form: > and >= are written as < and <= with the operands exchanged; the operands of the
+    symmetric == and != are ordered."""
+    name = "cmp_" + opname
+    if name in _SWAP:
+        return F(_SWAP[name])(b, a)
+    if name in ("cmp_Eq", "cmp_NotEq") and _okey(b) < _okey(a):
+        return F(name)(b, a)
+    return F(name)(a, b)
+
+
 def truth(v):
     """Canonical form of a value used as a condition: len(x) > 0, len(x) != 0, bool(x) -> x ; len(x) == 0 -> not x."""
     name = getattr(getattr(v, "func", None), "__name__", "")
@@ -73,11 +87,19 @@ def truth(v):
     if name.startswith("cmp_") and len(v.args) == 2:
         a, b = v.args
         an = getattr(getattr(a, "func", None), "__name__", "")
+        bn = getattr(getattr(b, "func", None), "__name__", "")
         if an == "len" and len(a.args) == 1 and b.is_Integer:
             x, k = a.args[0], int(b)
-            if (name, k) in (("cmp_Gt", 0), ("cmp_GtE", 1), ("cmp_NotEq", 0)):
+            if (name, k) in (("cmp_NotEq", 0),):
                 return x
             if (name, k) in (("cmp_Eq", 0), ("cmp_Lt", 1), ("cmp_LtE", 0)):
+                return mk_not(x)
+        if bn == "len" and len(b.args) == 1 and a.is_Integer:
+            # canonical forms of len(x) > 0, len(x) >= 1:  0 < len(x), 1 <= len(x)
+            x, k = b.args[0], int(a)
+            if (name, k) in (("cmp_Lt", 0), ("cmp_LtE", 1), ("cmp_NotEq", 0)):
+                return x
+            if (name, k) in (("cmp_Eq", 0),):
                 return mk_not(x)
     if name in ("band", "bor"):
         return mk_bool(name, [truth(a) for a in v.args])
@@ -92,7 +114,7 @@ def mk_not(v):
     if name == "bnot":
         return v.args[0]
     if name in _NEG:
-        return F(_NEG[name])(*v.args)
+        return mk_cmp(_NEG[name][4:], *v.args)
     if name == "band":
         return mk_bool("bor", [mk_not(a) for a in v.args])
     if name == "bor":
@@ -265,7 +287,7 @@ class PyVal:
                 rv = self._v(c, env)
                 if isinstance(op, (ast.In, ast.NotIn)) and getattr(getattr(rv, "func", None), "__name__", "") == "keysof":
                     rv = rv.args[0]
-                t = F("cmp_" + type(op).__name__)(l, rv)
+                t = mk_cmp(type(op).__name__, l, rv)
                 out = t if out is None else mk_bool("band", [out, t])
                 l = rv
             return out
@@ -405,6 +427,8 @@ class PyVal:
                 and name.split(".")[0] not in ("np", "numpy", "copy"):
             recv = self._v(f0.value, env)
             return F("copyof" if f0.attr == "copy" else "keysof")(recv)
+        if name == "dict" and not args and kwv and "**" not in kwv:
+            return F("dict")(*[F("kv")(sym(repr(k)), v) for k, v in kwv.items()])
         if not kwv and len(args) == 1:
             a0 = args[0]
             if name in ("dict", "copy.copy", "copy"):
